@@ -221,7 +221,8 @@ def maximal(behs):
     return res
 
 
-def validate_traces(module, traces, cfg=None, *, extra_env=None, timeout=900, dfs=False, chunk=4000):
+def validate_traces(module, traces, cfg=None, *, extra_env=None, timeout=900, dfs=False, chunk=4000,
+                    collect=None):
     """code -> spec.  `traces` is a list of traces, each a list of event dicts.
     Trace_<X>.tla reads them from IOEnv.TRACE_FILE and prints
        <<"ACCEPT", t>>                       trace t is a behaviour of the spec
@@ -229,6 +230,7 @@ def validate_traces(module, traces, cfg=None, *, extra_env=None, timeout=900, df
     returns (verdicts, states, transitions); verdicts[t] = None | (l, clause)"""
     verdicts = {}
     states = trans = 0
+    extra = {tag: [] for tag in (collect or ())}
     for base in range(0, len(traces), chunk):
         part = traces[base:base + chunk]
         d = tempfile.mkdtemp(prefix='trace-')
@@ -244,6 +246,9 @@ def validate_traces(module, traces, cfg=None, *, extra_env=None, timeout=900, df
                 raise MachineryError(f'trace validation {module} failed: {r.error}\n{r.out[-3000:]}')
             states += r.distinct
             trans += r.generated
+            for tag in extra:
+                for x in r.printed_tuples(tag):
+                    extra[tag].append([base + x[0] - 1] + x[1:])
             acc = {x[0] for x in r.printed_tuples('ACCEPT')}
             rej = {}
             for x in r.printed_tuples('REJECT'):
@@ -258,6 +263,8 @@ def validate_traces(module, traces, cfg=None, *, extra_env=None, timeout=900, df
                     verdicts[base + i] = (-1, 'no verdict printed (trace spec stuck)')
         finally:
             shutil.rmtree(d, ignore_errors=True)
+    if collect:
+        return verdicts, states, trans, extra
     return verdicts, states, trans
 
 
